@@ -23,6 +23,10 @@ TRUSTED_BASE = [
 ]
 
 
+class Abort(Exception):
+    """Stop analysing: a finding exists and a later anchor is missing."""
+
+
 @dataclass
 class Obligation:
     rule: str
@@ -56,6 +60,8 @@ class Report:
 
     def check_nonvacuous(self) -> None:
         """Every declared rule must have matched at least `min_obs` constructs."""
+        if self.findings():
+            return
         for rid, need in self.min_obs.items():
             got = len({o.key for o in self.obligations if o.rule == rid})
             if got < need:
@@ -77,6 +83,10 @@ class Report:
     def need(self, cond: Any, what: str) -> None:
         """Non-vacuity / anchor check: failing it makes the run undecided (exit 2)."""
         if not cond:
+            if self.findings():
+                # an obligation has already failed at a named construct: report that instead of
+                # an undecided run (the missing anchor is most likely a consequence of it)
+                raise Abort(what)
             raise AnalysisError(what)
 
     def fn(self, *quals: str) -> None:
